@@ -3,7 +3,9 @@
 package main
 
 import (
+	"os"
 	"sort"
+	"time"
 
 	git "github.com/go-git/go-git/v6"
 
@@ -34,11 +36,54 @@ func code(b git.StatusCode) string {
 	return string([]byte{byte(b)})
 }
 
+// tsOf reads a [seconds, nanoseconds] pair.
+func tsOf(c lib.Case, k string) time.Time {
+	l := c.L(k)
+	if len(l) != 2 {
+		panic("bad time stamp " + k)
+	}
+	return time.Unix(lib.Case{"s": l[0]}.I("s"), lib.Case{"n": l[1]}.I("n"))
+}
+
+// stamp gives one tracked file explicit sub-second time stamps: the entry is
+// refreshed while the file (content as staged) carries emt, then the file is
+// replaced (new inode, so git's own stat check cannot be fooled) by content c
+// with mtime wmt, and .git/index is stamped imt.
+func stamp(r *porc.Repo, st lib.Case) {
+	full := r.Path(st.S("p"))
+	emt, wmt, imt := tsOf(st, "emt"), tsOf(st, "wmt"), tsOf(st, "imt")
+	if err := os.Chtimes(full, emt, emt); err != nil {
+		panic(err)
+	}
+	r.Git("update-index", "--refresh")
+	fi, err := os.Lstat(full)
+	if err != nil {
+		panic(err)
+	}
+	tmp := full + ".verif-tmp"
+	if err := os.WriteFile(tmp, st.B("c"), fi.Mode().Perm()); err != nil {
+		panic(err)
+	}
+	os.Chmod(tmp, fi.Mode().Perm())
+	if err := os.Rename(tmp, full); err != nil {
+		panic(err)
+	}
+	if err := os.Chtimes(full, wmt, wmt); err != nil {
+		panic(err)
+	}
+	if err := os.Chtimes(r.Path(".git/index"), imt, imt); err != nil {
+		panic(err)
+	}
+}
+
 func main() {
 	porc.Main(func(c lib.Case) (lib.Out, any) {
 		r := porc.New()
 		defer r.Close()
 		r.Build(recipe(c))
+		if st := c.M("stamp"); st != nil {
+			stamp(r, st)
+		}
 		repo, err := git.PlainOpen(r.Dir)
 		if err != nil {
 			return lib.Err("open"), err.Error()
